@@ -23,7 +23,9 @@
 From Coq Require Import ZArith List Bool String.
 Require Import Rig.Generated.GenMemOps Rig.Generated.GenSCP Rig.Model.Base Rig.Model.Machine Rig.Model.MemOps
   Rig.Spec.MemOps Rig.Proofs.MemOpsArith Rig.Proofs.MemOps Rig.Proofs.MemOpsChunks Rig.Proofs.MemOpsExact
-  Rig.Proofs.MemOpsTop Rig.Proofs.MemOpsFill Rig.Proofs.MemOpsLink Rig.Proofs.MemOpsExamples.
+  Rig.Proofs.MemOpsTop Rig.Proofs.MemOpsFill Rig.Proofs.MemOpsLink Rig.Model.MemOpsState Rig.Proofs.MemOpsState
+  Rig.Proofs.MemOpsExamples.
+Require Rig.Model.SCP.
 Import ListNotations.
 Open Scope Z_scope.
 
@@ -175,6 +177,113 @@ Theorem C07_recv_length_truncates_orig_refuted :
     read_run {| e_buffer := buffer; e_rl := receive_length_orig buffer; e_nbr := ex_nbr |} M c core cs
              (repeat 0 (Z.to_nat length)) = OtherError.
 Proof. exact ex_recv_length_orig. Qed.
+
+(* ---- the struct tables are controller STATE: __init__ sets the bundled file's, boot() REPLACES them (shape
+        re-extracted on every run: GenMemOps.boot_replaces_structs); a field's address is base + offset per the
+        CURRENT tables, whatever the controller used before *)
+Theorem C07_default_structs_ok : sfile_ok default_sfile.
+Proof. exact default_sfile_ok. Qed.
+
+Theorem C07_never_booted_is_stateless :
+  forall E M c o, st_run_op ctl_new E M c o = run_op E M c o.
+Proof. exact st_run_op_new. Qed.
+
+Theorem C07_boot_replaces_structs : forall S ct, ctl_structs (ctl_boot S ct) = S.
+Proof. exact ctl_boot_structs. Qed.
+
+Theorem C07_read_struct_current_tables :
+  forall ct buffer nbr M c core name off n,
+    sfile_ok (ctl_structs ct) -> 1 <= buffer < 2 ^ 32 ->
+    field_find name (sf_sv (ctl_structs ct)) = Some (off, n) ->
+    exists tr, st_read_struct ct (mk_env buffer nbr) M c core name =
+                 Ok (tr, mem_range (M c) (sf_sv_base (ctl_structs ct) + off) n) /\
+               trace_ok buffer tr /\ Forall (fun r => is_read_cmd (rq_cmd r)) tr /\
+               Forall (fun r => rq_chip r = c /\ rq_core r = core) tr.
+Proof. exact st_read_struct_exact. Qed.
+
+Theorem C07_write_struct_current_tables :
+  forall ct buffer nbr M c core name off n data,
+    sfile_ok (ctl_structs ct) -> 1 <= buffer < 2 ^ 32 ->
+    field_find name (sf_sv (ctl_structs ct)) = Some (off, n) -> zlen data = n ->
+    exists tr M', st_write_struct ct (mk_env buffer nbr) M c core name data = Ok (tr, M') /\
+                  stored_exactly M M' c (sf_sv_base (ctl_structs ct) + off) data /\ trace_ok buffer tr /\
+                  Forall (fun r => rq_chip r = c) tr.
+Proof. exact st_write_struct_exact. Qed.
+
+Theorem C07_read_vcpu_current_tables :
+  forall ct buffer nbr M c p name off n vboff,
+    sfile_ok (ctl_structs ct) -> 1 <= buffer < 2 ^ 32 ->
+    field_find "vcpu_base" (sf_sv (ctl_structs ct)) = Some (vboff, 4) ->
+    field_find name (sf_vcpu (ctl_structs ct)) = Some (off, n) ->
+    0 <= st_vcpu_addr (ctl_structs ct) vboff M c p off ->
+    st_vcpu_addr (ctl_structs ct) vboff M c p off + n <= 2 ^ 32 ->
+    exists tr, st_read_vcpu ct (mk_env buffer nbr) M c p name =
+                 Ok (tr, mem_range (M c) (st_vcpu_addr (ctl_structs ct) vboff M c p off) n) /\
+               trace_ok buffer tr /\ Forall (fun r => is_read_cmd (rq_cmd r)) tr /\
+               Forall (fun r => rq_chip r = c) tr.
+Proof. exact st_read_vcpu_exact. Qed.
+
+Theorem C07_write_vcpu_current_tables :
+  forall ct buffer nbr M c p name off n vboff data,
+    sfile_ok (ctl_structs ct) -> 1 <= buffer < 2 ^ 32 ->
+    field_find "vcpu_base" (sf_sv (ctl_structs ct)) = Some (vboff, 4) ->
+    field_find name (sf_vcpu (ctl_structs ct)) = Some (off, n) -> zlen data = n ->
+    0 <= st_vcpu_addr (ctl_structs ct) vboff M c p off ->
+    st_vcpu_addr (ctl_structs ct) vboff M c p off + n <= 2 ^ 32 ->
+    exists tr M', st_write_vcpu ct (mk_env buffer nbr) M c p name data = Ok (tr, M') /\
+                  stored_exactly M M' c (st_vcpu_addr (ctl_structs ct) vboff M c p off) data /\
+                  trace_ok buffer tr /\ Forall (fun r => rq_chip r = c) tr.
+Proof. exact st_write_vcpu_exact. Qed.
+
+(* ---- composition with C06: the callbacks of a burst (Model/SCP.v) that returns complete every chunk exactly once,
+        so the order they give covers the chunk list -- for EVERY connection state (the 16-bit sequence counter
+        anywhere, the wrap inside the transfer included), window, try count and event list.  A read over a burst is
+        exact when the burst returns and raises otherwise: it never returns other bytes. *)
+Theorem C07_burst_order_covers :
+  forall (A : Type) (cs : list A) cf evs k tr k' rest,
+    SCP.burst cf (burst_cmds (List.length cs)) evs k = (tr, SCP.Returned, k', rest) ->
+    covers cs (order_of cs tr).
+Proof. exact order_of_covers. Qed.
+
+Theorem C07_read_over_burst_exact_or_raises :
+  forall cf evs k buffer nbr M c core address length r,
+    0 <= address -> 0 <= length -> address + length <= 2 ^ 32 -> 1 <= buffer < 2 ^ 32 ->
+    sc_read_burst cf evs k (mk_env buffer nbr) M c core address length = r ->
+    (exists tr, r = Ok (tr, mem_range (M c) address length) /\ trace_ok buffer tr /\
+                Forall (fun q => is_read_cmd (rq_cmd q)) tr) \/
+    (forall v, r <> Ok v).
+Proof. exact sc_read_burst_exact_or_raises. Qed.
+
+Theorem C07_write_over_burst_exact :
+  forall cf evs k tr k' rest buffer nbr M c core address data cs,
+    0 <= address -> address + zlen data <= 2 ^ 32 -> 1 <= buffer < 2 ^ 32 ->
+    write_chunks address buffer data = Ok cs ->
+    SCP.burst cf (burst_cmds (List.length cs)) evs k = (tr, SCP.Returned, k', rest) ->
+    exists trq M', call_run (mk_env buffer nbr) M c core (order_of cs tr) = Ok (trq, M') /\
+                   stored_exactly M M' c address data /\ trace_ok buffer trq.
+Proof. exact call_run_burst_exact. Qed.
+
+Example C07_burst_across_seq_wrap :
+  (let '(tr, oc, k', _) := SCP.burst ex_wrap_cf (burst_cmds 4) ex_wrap_events ex_wrap_conn in
+   (callback_ids tr, oc, SCP.k_seq k',
+    flat_map (fun o => match o with SCP.OSend _ c s _ => [(c, s)] | _ => [] end) tr)) =
+  ([1; 0; 3; 2], SCP.Returned, 2, [(0, 65534); (1, 65535); (2, 0); (3, 1); (2, 0); (3, 1)]) /\
+  match sc_read_burst ex_wrap_cf ex_wrap_events ex_wrap_conn (mk_env 4 ex_nbr) ex_M (1, 2) 0 4097 16 with
+  | Ok (tr, out) => Some (map (fun r => match rq_cmd r with CRead a _ _ => a | _ => 0 end) tr, out)
+  | _ => None
+  end = Some ([4101; 4097; 4109; 4105], mem_range (ex_M (1, 2)) 4097 16).
+Proof. exact ex_wrap_instance. Qed.
+
+Example C07_reboot_moves_fields :
+  match st_run_op (ctl_boot ex_moved ctl_new) (mk_env 16 ex_nbr) ex_M (1, 2) (OpReadStruct 0 "utmp0") with
+  | Ok (tr, out, _) => Some (map (fun r => match rq_cmd r with CRead a _ _ => a | _ => 0 end) tr, out)
+  | _ => None
+  end = Some ([4110450176 + 116], mem_range (ex_M (1, 2)) (4110450176 + 116) 4) /\
+  match st_run_op ctl_new (mk_env 16 ex_nbr) ex_M (1, 2) (OpReadStruct 0 "utmp0") with
+  | Ok (tr, out, _) => Some (map (fun r => match rq_cmd r with CRead a _ _ => a | _ => 0 end) tr)
+  | _ => None
+  end = Some [sv_struct_base + 112].
+Proof. exact ex_reboot_instance. Qed.
 
 (* ---- non-vacuity, necessity of the guards, error branches *)
 Example C07_read_hypotheses_satisfiable :
